@@ -1,5 +1,6 @@
 import Harper.Props.C02
 import Harper.Lemmas.CondensePats
+import Harper.Lemmas.Shape
 /-!
 # C02 (continued) — `Document::parse`: every condensing pass preserves tiling
 
@@ -14,7 +15,7 @@ panic. `document_tiles` composes them with `parsePlain_tiles`.
 namespace Harper.C02
 open Harper
 
-/-- `condense_spaces` (cursor advances twice after a merge, adjacency checked) -/
+/-- `condense_spaces` (adjacency checked) -/
 theorem condenseSpaces_tiles (toks : List Tok) (a b : Nat) (h : Tiles toks a b) :
     Tiles (condenseSpaces toks) a b := condenseSpaces_tiles' toks a b h
 
@@ -110,5 +111,62 @@ example (src : List Char) : PatOK latinPat src (InB src) := latin_patOK src
 overlaps the first — `remove_indices` then loses a token -/
 example : removeIndices 0 (overlapNext 1 [⟨0, 3⟩, ⟨1, 2⟩, ⟨2, 4⟩]) [(⟨0, 3⟩ : Span), ⟨1, 2⟩, ⟨2, 4⟩] =
     [⟨0, 3⟩, ⟨2, 4⟩] := by decide
+
+/-! ## kind-shape facts of a `Document` -/
+
+/-- A `Space(n)` token of a document covers only blanks and tabs, and `n` = #blanks + 2·#tabs:
+true of what `lex_spaces` / `lex_tabs` produce, kept by `condense_spaces` (it adds the counts of
+adjacent tokens), and no later pass rewrites a `Space` token (the pattern passes rewrite the first
+token of a match only, a `Word` or a `Period`). -/
+theorem space_shape (cls : Cls) (ext : Ext) (src : List Char) (hext : ExtOK ext src.length) (out : List Tok)
+    (h : document cls ext src = .ok out) (t : Tok) (ht : t ∈ out) (n : Nat) (hk : t.kind = .space n) :
+    (∀ c ∈ (src.drop t.span.start).take (t.span.stop - t.span.start), c = ' ' ∨ c = '\t') ∧
+      n = ((src.drop t.span.start).take (t.span.stop - t.span.start)).count ' ' +
+        2 * ((src.drop t.span.start).take (t.span.stop - t.span.start)).count '\t' :=
+  (document_shape cls ext src hext out h t ht).1 n hk
+
+/-- A `Number` token with suffix `s` ends in two characters that `NumberSuffix::from_chars` reads as
+`s` (a row of the table regenerated from `number.rs`). -/
+theorem number_suffix_shape (cls : Cls) (ext : Ext) (src : List Char) (hext : ExtOK ext src.length)
+    (out : List Tok) (h : document cls ext src = .ok out) (t : Tok) (ht : t ∈ out) (r : Nat) (s : Suffix)
+    (hk : t.kind = .number r (some s)) :
+    ∃ pre c1 c2, (src.drop t.span.start).take (t.span.stop - t.span.start) = pre ++ [c1, c2] ∧
+      fromCharsRow c1 c2 = some s :=
+  (document_shape cls ext src hext out h t ht).2 r s hk
+
+/-- `match_quotes`: the twin of a quote token is a (different) quote token whose twin is the first;
+stated for any token vector whose quote tokens carry no twin yet … -/
+theorem matchQuotes_involutive (toks : List Tok) (hf : Fresh toks) (i j : Nat) (t : Tok)
+    (h : (matchQuotes toks)[i]? = some t) (hk : t.kind = .quote (some j)) :
+    ∃ u, (matchQuotes toks)[j]? = some u ∧ u.kind = .quote (some i) ∧ i ≠ j :=
+  matchQuotes_twin toks hf i j t h hk
+
+/-- … and for the tokens of a document -/
+theorem document_twins_involutive (cls : Cls) (ext : Ext) (src : List Char) (out : List Tok)
+    (h : document cls ext src = .ok out) (i j : Nat) (t : Tok) (hi : out[i]? = some t)
+    (hk : t.kind = .quote (some j)) : ∃ u, out[j]? = some u ∧ u.kind = .quote (some i) ∧ i ≠ j := by
+  obtain ⟨t8, hf, rfl⟩ := document_prequotes cls ext src out h
+  exact matchQuotes_twin t8 hf i j t hi hk
+
+/-- of an odd number of quotation marks the last one has no twin -/
+theorem matchQuotes_unpaired_last (toks : List Tok) (hf : Fresh toks) (q : Nat)
+    (hodd : (quoteIdx 0 toks).length % 2 = 1) (hq : (quoteIdx 0 toks).getLast? = some q) :
+    ∃ t, (matchQuotes toks)[q]? = some t ∧ t.kind = .quote none :=
+  matchQuotes_unpaired toks hf q hodd hq
+
+/-- `match_quotes` leaves every other token as it is -/
+theorem matchQuotes_only_quotes (toks : List Tok) (i : Nat) (t : Tok) (h : toks[i]? = some t)
+    (hq : t.kind.isQuote = false) : (matchQuotes toks)[i]? = some t := matchQuotes_other toks i t h hq
+
+/-- witnesses: `" \t  "` is one `Space(5)` token = 3 blanks + 2·1 tab; three quotation marks: the
+first two are twins, the third has none -/
+example : (document asciiCls (fun _ => none) [' ', '\t', ' ', ' ']).toOption = some [⟨⟨0, 4⟩, .space 5⟩] := by
+  decide
+example : (document asciiCls (fun _ => none) ['"', 'a', '"', '"']).toOption =
+    some [⟨⟨0, 1⟩, .quote (some 2)⟩, ⟨⟨1, 2⟩, .word⟩, ⟨⟨2, 3⟩, .quote (some 0)⟩, ⟨⟨3, 4⟩, .quote none⟩] := by decide
+example : Fresh [⟨⟨0, 1⟩, .quote none⟩, ⟨⟨1, 2⟩, .word⟩] := by
+  intro t ht x hx
+  simp only [List.mem_cons, List.mem_nil_iff, or_false] at ht
+  rcases ht with rfl | rfl <;> cases hx
 
 end Harper.C02
